@@ -160,7 +160,7 @@ func (t *Tree) internalEdgesRecur(edge *Edge, edges *[]*Edge) {
 		for _, child := range edge.right.br {
 			if child.left == edge.right && !child.Right().Tip() {
 				*edges = append((*edges), child)
-				t.edgesRecur(child, edges)
+				t.internalEdgesRecur(child, edges)
 			}
 		}
 	}
